@@ -16,6 +16,7 @@ import (
 	"github.com/taskctl/taskctl/pkg/runner"
 	"github.com/taskctl/taskctl/pkg/scheduler"
 	"github.com/taskctl/taskctl/pkg/task"
+	"github.com/taskctl/taskctl/pkg/utils"
 	"github.com/taskctl/taskctl/pkg/variables"
 
 	"verif/internal/h"
@@ -300,11 +301,22 @@ func runBarrier(a args, r *h.Rand, idx int) {
 		return
 	}
 	out.Begin(fmt.Sprintf("barrier#%d k=%d diamond=%v", idx, k, diamond))
-	sch := scheduler.NewScheduler(newQuietRunner())
+	br := newQuietRunner()
+	namedCtx := r.Chance(40)
+	if namedCtx {
+		// all barrier tasks use one named context that has before/after hooks: they still have to overlap
+		br.SetContexts(map[string]*runner.ExecutionContext{"shared-ctx": runner.NewExecutionContext(&utils.Binary{}, "", variables.NewVariables(), []string{"true"}, []string{"true"}, []string{"true"}, []string{"true"})})
+		for _, st := range list {
+			if st.Task != nil && strings.HasPrefix(st.Name, "b") && st.Name != "bottom" {
+				st.Task.Context = "shared-ctx"
+			}
+		}
+	}
+	sch := scheduler.NewScheduler(br)
 	sch.VerifSetPause(time.Millisecond)
 	done := make(chan error, 1)
 	go func() { done <- sch.Schedule(g) }()
-	cas := map[string]interface{}{"barrier_stages": k, "diamond": diamond, "stages_share_one_task": shared}
+	cas := map[string]interface{}{"barrier_stages": k, "diamond": diamond, "stages_share_one_task": shared, "tasks_in_one_named_context_with_hooks": namedCtx}
 	select {
 	case err := <-done:
 		out.Count("executions", 1)
